@@ -9,7 +9,11 @@ and never calls pandas or the library.  Operands are described by a JSON spec (t
 Scope notes: frames have 2 or 3 columns out of {a,b,c} (the library documents that a one-column frame behaves like a Series, its
 column name being ignored - those are not enumerated); when a list reduction would pass through an intermediate frame with fewer
 than two columns the case is dropped for the same reason; for pow_/comparisons/min_/max_ (no neutral element stated) frames are
-combined under column policy 'ij' only."""
+combined under column policy 'ij' only.
+List operands: add_/mul_/min_/max_ concatenate the two sides and reduce left to right; sub_ and div_ reduce each side that is a list
+first (with add_ resp. mul_, under the same join / column policy) and then apply the operation once: sub_([a, b], [c, d]) is
+(a + b) - (c + d).  A job carries `split` (how many operands belong to the left side) and `wrap` (which single-operand sides are
+passed as one-element lists: '', 'l', 'r', 'lr')."""
 import datetime, itertools, json, math, random, warnings
 from rac.common import Collector
 
@@ -232,11 +236,15 @@ def from_result(r):
     return ('odd', '%s: %r' % (type(r).__name__, r))
 
 
-def call_real(fn, objs, split, join, columns):
+def call_real(fn, objs, split, join, columns, wrap=''):
     import pyg_base._pandas as P
     f = getattr(P, fn if fn in AGG else fn + '_')
     if fn in AGG:
         return f(objs) if split is None else f(objs[:split] if split > 1 else objs[0], objs[split:] if len(objs) - split > 1 else objs[split])
+    if (fn in FOLD or fn in PRE) and (len(objs) != 2 or wrap):
+        a = objs[:split] if (split > 1 or 'l' in wrap) else objs[0]
+        b = None if split == len(objs) else objs[split:] if (len(objs) - split > 1 or 'r' in wrap) else objs[split]
+        return f(a, b, join=join, columns=columns)
     if fn in FOLD and (len(objs) != 2 or split != 1):
         a = objs[:split] if split > 1 else objs[0]
         b = None if split == len(objs) else objs[split:] if len(objs) - split > 1 else objs[split]
@@ -267,35 +275,46 @@ def diff(exp, got, fn):
     return []
 
 
-def expected(fn, avs, join, columns):
+PRE = dict(sub='add', div='mul')
+
+
+def expected(fn, avs, join, columns, split=1):
     if fn in AGG:
         return aggregate(fn, avs)
     if fn in ('min', 'max'):
         return sync_all(fn, avs, join, columns)
+    if fn in PRE and len(avs) > 2:
+        # a list on either side is reduced first (add_ for sub_, mul_ for div_) under the same policies, then the operation is applied once
+        sides = [fold(PRE[fn], avs[:split], join, columns), fold(PRE[fn], avs[split:], join, columns)]
+        if any(v[0] == 'frm' and len(v[2]) < 2 for v in sides):
+            raise OutOfScope('intermediate frame with fewer than two columns')
+        return binop(fn, sides[0], sides[1], join, columns)
     return fold(fn, avs, join, columns)
 
 
 def run_job(job):
     warnings.filterwarnings('ignore')
     fn, ops, split, join, columns = job['fn'], job['ops'], job.get('split'), job.get('join') or 'ij', job.get('columns') or 'ij'
+    wrap = job.get('wrap') or ''
+    cls = ':list-operand' if fn in PRE and (len(ops) > 2 or wrap) else ''        # sub_/div_ with a list on either side (pre-reduction)
     avs = [to_av(o) for o in ops]
     try:
-        exp = expected(fn, avs, join, columns)
+        exp = expected(fn, avs, join, columns, split)
     except OutOfScope:
         return None
     objs = [build(o) for o in ops]
     before = [from_result(o) for o in objs]
-    d7 = fn == 'div' and avs[1] == ('num', 0.0) and avs[0][0] != 'num'
+    d7 = fn == 'div' and len(avs) == 2 and avs[1] == ('num', 0.0) and avs[0][0] != 'num'
     out = []
     try:
-        got = from_result(call_real(fn, objs, split, join, columns))
+        got = from_result(call_real(fn, objs, split, join, columns, wrap))
     except Exception as e:      # noqa
-        return [(K_D7 if d7 else 'C08:raises', '%s raised %s: %s' % (fn, type(e).__name__, e))]
+        return [(K_D7 if d7 else 'C08:raises' + cls, '%s raised %s: %s' % (fn, type(e).__name__, e))]
     if exp[0] == 'frm' and not exp[2]:
         return []               # empty common column set: nothing stated about the shape of the result
     for clause, text in diff(exp, got, fn):
-        out.append((K_D7 if (d7 and clause == 'shape') else 'C08:' + clause, '%s: %s' % (fn, text)))
-    if fn in ('add', 'mul') and not out:
+        out.append((K_D7 if (d7 and clause == 'shape') else 'C08:' + clause + cls, '%s: %s' % (fn, text)))
+    if fn in ('add', 'mul') and not out and not wrap:
         try:
             if len(objs) == 2:          # add_(x, y) against add_(y, x) for two plain operands (a reduction over lists is not
                 # associative once scalars meet outer-joined columns, so swapping whole lists is not what commutativity states)
@@ -373,18 +392,40 @@ def jobs_for(tier, seed):
         ops = [mk_any(rng, family) for _ in range(k)]
         for fn in (AGG if not quick else rng.sample(AGG, 2)):
             add(fn, ops, rng.choice([None, None, 1]) if k == 2 else None)
+    # F. lists of operands on either side, for every operator that accepts lists, under both join policies. sub_ / div_ reduce each list side
+    #    first; add_ / mul_ / min_ / max_ concatenate.  (k operands, how many on the left, which single sides are one-element lists.)
+    #    Index sets are drawn independently per operand, so timestamps that occur in only some elements of a list (and not on the other
+    #    side) are the common case; the first draws of every shape force one: every list element owns a private timestamp.
+    shapes = [(2, 1, 'r'), (2, 1, 'l'), (2, 1, 'lr'), (3, 1, ''), (3, 2, ''), (3, 1, 'l'), (3, 2, 'r'), (4, 2, ''), (4, 1, ''), (4, 3, '')]
+    for fn in ['sub', 'div'] + FOLD:
+        pre = fn in PRE
+        for k, split, wrap in shapes:
+            for jn in ('ij', 'oj'):
+                for draw in range((20 if pre else 5) if quick else (400 if pre else 150)):
+                    family = 's' if draw % 3 else 'f'
+                    ops = [mk_any(rng, rng.choice(family * 5 + 'n')) for _ in range(k)]
+                    if draw < 3 and k <= 4:                               # private timestamps: operand i owns grid position i, all share position 4
+                        for i, o in enumerate(ops):
+                            if 'ts' in o:
+                                ops[i] = (mk_ser if o['ts']['cols'] is None else (lambda r, ix: mk_frm(r, ix, o['ts']['cols'])))(rng, sorted({i, 4} | set(rng.sample(range(4), 1))))
+                    if all('num' in o for o in ops):
+                        continue
+                    add(fn, ops, split, jn, rng.choice(['ij', 'oj']))
+                    jobs[-1]['wrap'] = wrap
     return jobs
 
 
 def ident(job):
-    return json.dumps([job['fn'], job['ops'], job.get('split'), job.get('join'), job.get('columns')], sort_keys=True)
+    return json.dumps([job['fn'], job['ops'], job.get('split'), job.get('join'), job.get('columns'), job.get('wrap') or ''], sort_keys=True)
 
 
 def run(tier, seed):
     quick = tier == 'quick'
     c = Collector('C08', '2-4 operands: Series / 2-3 column frames (columns out of a,b,c) whose indices are subsets of a 5-day grid (all 32, empty '
                   'included; two-Series cases over %s pairs of index sets x {ij,oj} x 11 operators), cell values in {0,1,-2,NaN}, scalars in {0,1,-2,2.5} on '
-                  'either side, index policy in {ij,oj}, column policy in {ij,oj}; lists of 3-4 operands for add_/mul_/min_/max_; df_sum/df_mean/df_count/'
+                  'either side, index policy in {ij,oj}, column policy in {ij,oj}; lists of 3-4 operands for add_/mul_/min_/max_; lists on either or both sides '
+                  '(2-4 operands split 1|1..3|1, single operands also as one-element lists) for sub_/div_ (each list side reduced first with add_/mul_) and '
+                  'add_/mul_/min_/max_ under both index policies, with timestamps owned by single list elements; df_sum/df_mean/df_count/'
                   'df_std over 2-4 Series or frames; commutativity of add_/mul_ re-evaluated with the operands reversed; seeded choices from '
                   'random.Random(seed). Distinct by (operator, operands, split, join, columns); non-trivial when the expected result has at least one cell'
                   % ('all 1024' if not quick else '~250 seeded'), exhaustive=False,
@@ -399,7 +440,7 @@ def run(tier, seed):
     for job, fails in zip(jobs, results):
         if fails is None:
             continue            # outside the stated scope (see module docstring)
-        call = dict(fn=job['fn'], ops=job['ops'], split=job.get('split'), join=job.get('join'), columns=job.get('columns'))
+        call = dict(fn=job['fn'], ops=job['ops'], split=job.get('split'), join=job.get('join'), columns=job.get('columns'), wrap=job.get('wrap') or '')
         nontrivial = any('ts' in o and o['ts']['idx'] for o in job['ops'])
         c.case(ident(job), nontrivial=nontrivial, sample=dict(fn=job['fn'], join=job.get('join'), columns=job.get('columns'), operands=json.dumps(job['ops'])[:300]))
         for key, what in fails:
@@ -411,7 +452,7 @@ def run(tier, seed):
 
 
 def replay(call):
-    fails = run_job(dict(fn=call['fn'], ops=call['ops'], split=call.get('split'), join=call.get('join'), columns=call.get('columns')))
+    fails = run_job(dict(fn=call['fn'], ops=call['ops'], split=call.get('split'), join=call.get('join'), columns=call.get('columns'), wrap=call.get('wrap') or ''))
     if fails is None:
         return dict(fails=None, detail='input outside the enumerated scope')
     return dict(fails=bool(fails), detail='; '.join('%s: %s' % f for f in fails)[:600] if fails else 'all clauses hold on the real code for this input')
